@@ -115,70 +115,82 @@ def main():
                             libc.free(b._p)
                 elif mode == "vrt":
                     first_result = None
+                    base = [b.arr.copy() for b in bufs]
                     for (nt, sch) in cfg["threads"]:
-                        arrs = [b.arr.copy() for b in bufs]
-                        sseed = int(r.integers(1, 2 ** 62))
-                        v.begin(sseed, nt, int(r.choice([3, 20, 100])), int(r.choice([0, 300])), sch)
-                        regs = []
-                        for b, a in zip(bufs, arrs):
-                            rights = klib.R if b.role == "in" else klib.RW
-                            regs.append(v.region(b.name, a, rights, track=b.role in ("out", "scratch")))
-                        rv = f(*call_args(spec, [a.ctypes.data for a in arrs]))
-                        st = v.stats()
-                        count("vrt_calls")
-                        # schedule determinism: outputs under every controlled schedule / thread count must equal
-                        # the sequential single-thread result (float reductions: to rounding)
-                        snap = [(b.name, a.copy()) for b, a in zip(bufs, arrs)
-                                if b.role == "inout" or (b.role == "out" and b.full)]
-                        if first_result is None:
-                            first_result = (rv, snap)
-                        else:
-                            count("schedule_determinism_comparisons")
-                            fr = spec["fn"] in FLOAT_REDUCTIONS
-                            bad = None
-                            if not fr and rv != first_result[0] and not (rv != rv):
-                                bad = "return value %r vs %r" % (rv, first_result[0])
-                            for (nm, a), (_, a0) in zip(snap, first_result[1]):
-                                same = np.allclose(a, a0, rtol=1e-4, atol=1e-4, equal_nan=True) if fr else \
-                                    (a.tobytes() == a0.tobytes())
-                                if not same:
-                                    bad = "buffer %s" % nm
-                            if bad and not cfg.get("determinism_is_violation"):
-                                # not claimed by C20: recorded as an observation only
-                                out.setdefault("schedule_dependent_observed", {}).setdefault(spec["fn"], desc)
-                            elif bad:
-                                key = "schedule-dependent:%s" % spec["fn"]
-                                if key not in seen_keys:
-                                    seen_keys.add(key)
-                                    out["violations"].append(dict(
-                                        key=key, what="%s: result under a controlled schedule (threads %d, seed %d) differs from the "
-                                        "sequential single-thread result: %s; call %s" % (spec["fn"], nt, sseed, bad, desc),
-                                        replay=dict(replay, threads=nt, sched=sch, sched_seed=sseed)))
-                        count("vrt_accesses_checked", st["accesses"])
-                        count("vrt_switches", st["switches"])
-                        if st["violations"]:
-                            for ev in v.violations()[:3]:
-                                key = "access:%s:%s" % (ev["kind"], ev.get("where", spec["fn"]).split(" ")[0])
-                                if (key, ev.get("where")) not in seen_keys:
-                                    seen_keys.add((key, ev.get("where")))
-                                    out["violations"].append(dict(
-                                        key=key, what="%s: %s of %d bytes at %s offset %d (%s) in call %s"
-                                        % (spec["fn"], ev["kind"], ev["size"], ev["region"], ev["region_offset"],
-                                           ev.get("where", "?"), desc),
-                                        replay=dict(replay, threads=nt, sched=sch, sched_seed=sseed)))
-                            count("vrt_access_events", st["violations"])
-                        for b, rg in zip(bufs, regs):
-                            if b.role == "out" and b.full and b.arr.nbytes:
-                                nu, first = v.unwritten(rg)
-                                if nu:
-                                    key = "definedness:%s:%s" % (spec["fn"], b.name)
+                        # sch 0 sequential team, 1 random schedule, 4 race-directed (two sequential profiling passes that find
+                        # the code locations touching cells shared between threads, then schedules that park threads there)
+                        plan = [(sch, 1)] if sch != 4 else [(2, 1), (3, 1), (4, cfg.get("directed_runs", 3))]
+                        arrs = [a.copy() for a in base]
+                        if sch == 4:
+                            v.lib.vrt_profile_clear()
+                        for (m_, reps) in plan:
+                          for rep in range(reps):
+                            for a, a0 in zip(arrs, base):
+                                a[...] = a0
+                            sseed = int(r.integers(1, 2 ** 62))
+                            v.begin(sseed, nt, int(r.choice([3, 20, 100])), int(r.choice([0, 300])), m_)
+                            regs = []
+                            for b, a in zip(bufs, arrs):
+                                rights = klib.R if b.role == "in" else klib.RW
+                                regs.append(v.region(b.name, a, rights, track=b.role in ("out", "scratch")))
+                            rv = f(*call_args(spec, [a.ctypes.data for a in arrs]))
+                            st = v.stats()
+                            count("vrt_calls")
+                            count("vrt_accesses_checked", st["accesses"])
+                            count("vrt_switches", st["switches"])
+                            if m_ == 4:
+                                count("vrt_directed_runs")
+                                count("vrt_parks", int(v.lib.vrt_parks()))
+                                cnt["vrt_hot_pcs_max"] = max(cnt.get("vrt_hot_pcs_max", 0), int(v.lib.vrt_hot_count()))
+                            snap = [(b.name, a.copy()) for b, a in zip(bufs, arrs)
+                                    if b.role == "inout" or (b.role == "out" and b.full)]
+                            if first_result is None:
+                                first_result = (rv, snap)
+                            elif m_ in (1, 4):
+                                count("schedule_determinism_comparisons")
+                                fr = spec["fn"] in FLOAT_REDUCTIONS
+                                bad = None
+                                if not fr and rv != first_result[0] and not (rv != rv):
+                                    bad = "return value %r vs %r" % (rv, first_result[0])
+                                for (nm, a), (_, a0) in zip(snap, first_result[1]):
+                                    same = np.allclose(a, a0, rtol=1e-4, atol=1e-4, equal_nan=True) if fr else \
+                                        (a.tobytes() == a0.tobytes())
+                                    if not same:
+                                        bad = "buffer %s" % nm
+                                if bad and not cfg.get("determinism_is_violation"):
+                                    out.setdefault("schedule_dependent_observed", {}).setdefault(spec["fn"], desc)
+                                elif bad:
+                                    key = "schedule-dependent:%s" % spec["fn"]
                                     if key not in seen_keys:
                                         seen_keys.add(key)
                                         out["violations"].append(dict(
-                                            key=key, what="%s: %d of %d bytes of promised output %s never written (first at byte %d) in %s"
-                                            % (spec["fn"], nu, b.arr.nbytes, b.name, first, desc),
-                                            replay=dict(replay, threads=nt, sched=sch)))
-                                count("outputs_checked_for_definedness")
+                                            key=key, what="%s: result under a controlled schedule (threads %d, mode %d, seed %d) "
+                                            "differs from the sequential single-thread result: %s; call %s"
+                                            % (spec["fn"], nt, m_, sseed, bad, desc),
+                                            replay=dict(replay, threads=nt, sched=m_, sched_seed=sseed)))
+                            if st["violations"]:
+                                for ev in v.violations()[:3]:
+                                    key = "access:%s:%s" % (ev["kind"], ev.get("where", spec["fn"]).split(" ")[0])
+                                    if (key, ev.get("where")) not in seen_keys:
+                                        seen_keys.add((key, ev.get("where")))
+                                        out["violations"].append(dict(
+                                            key=key, what="%s: %s of %d bytes at %s offset %d (%s) in call %s"
+                                            % (spec["fn"], ev["kind"], ev["size"], ev["region"], ev["region_offset"],
+                                               ev.get("where", "?"), desc),
+                                            replay=dict(replay, threads=nt, sched=m_, sched_seed=sseed)))
+                                count("vrt_access_events", st["violations"])
+                            for b, rg in zip(bufs, regs):
+                                if b.role == "out" and b.full and b.arr.nbytes:
+                                    nu, first = v.unwritten(rg)
+                                    if nu:
+                                        key = "definedness:%s:%s" % (spec["fn"], b.name)
+                                        if key not in seen_keys:
+                                            seen_keys.add(key)
+                                            out["violations"].append(dict(
+                                                key=key, what="%s: %d of %d bytes of promised output %s never written (first at byte %d) in %s"
+                                                % (spec["fn"], nu, b.arr.nbytes, b.name, first, desc),
+                                                replay=dict(replay, threads=nt, sched=m_)))
+                                    count("outputs_checked_for_definedness")
                 else:   # poison
                     res = []
                     for pat in (0xAA, 0x55):
